@@ -43,9 +43,20 @@ func ufBaseName(fn *types.Func, name string) string {
 }
 
 func (e *Eng) flatArgs(st *State, args []Val) (terms []string, sorts []string) {
+	return e.flatArgsX(st, args, false)
+}
+
+// flatArgsX flattens values into SMT arguments. With canon, a byte slice is
+// passed as the string of its contents (pure functions depend on nothing else).
+func (e *Eng) flatArgsX(st *State, args []Val, canon bool) (terms []string, sorts []string) {
 	for _, a := range args {
 		switch a.K {
 		case KSlice:
+			if canon && !e.bv && isByteSlice(a.GoT) {
+				terms = append(terms, e.canonBytes(st, a))
+				sorts = append(sorts, "Str")
+				continue
+			}
 			var et types.Type = types.Typ[types.Uint8]
 			if a.GoT != nil {
 				if s, ok := a.GoT.Underlying().(*types.Slice); ok {
@@ -60,7 +71,7 @@ func (e *Eng) flatArgs(st *State, args []Val) (terms []string, sorts []string) {
 			terms = append(terms, e.rowOf(st, a), a.Off, a.Len)
 			sorts = append(sorts, "(Array "+e.idxSort()+" "+e.tagSort(e.elemTag(et))+")", e.idxSort(), e.idxSort())
 		case KTuple:
-			t, s := e.flatArgs(st, a.Elts)
+			t, s := e.flatArgsX(st, a.Elts, canon)
 			terms, sorts = append(terms, t...), append(sorts, s...)
 		case KUnit:
 		default:
@@ -82,7 +93,7 @@ func mangle(sorts []string) string {
 
 // ufApply builds an uninterpreted-function application for a pure callee.
 func (e *Eng) ufApply(name string, args []Val, resT types.Type, c *ctx) Val {
-	terms, sorts := e.flatArgs(c.st, args)
+	terms, sorts := e.flatArgsX(c.st, args, true)
 	mk := func(suffix, rsort string) string {
 		full := "|" + name + suffix + mangle(sorts) + "|"
 		if _, inSpec := e.specSigs()[strings.Trim(full, "|")]; !inSpec {
@@ -112,6 +123,15 @@ func (e *Eng) ufApply(name string, args []Val, resT types.Type, c *ctx) Val {
 		case KUnit:
 			return Val{K: KUnit}
 		default:
+			if a, ok := t.Underlying().(*types.Array); ok && e.kindOf(a.Elem()) != KSlice {
+				// array value: a fresh cell whose contents are a function of the arguments
+				tag := e.elemTag(a.Elem())
+				row := mk(suffix+"#row", "(Array "+e.idxSort()+" "+e.tagSort(tag)+")")
+				cell := e.alloc(c.st, "ufarray")
+				key := e.elemBase(a.Elem())
+				e.heapSet(c.st, key, "(store "+e.heapGet(c.st, key)+" "+cell+" "+row+")")
+				return Val{K: KRef, T: cell, GoT: t}
+			}
 			v := Val{K: k, T: mk(suffix, e.sortOfKind(k, t)), GoT: t}
 			e.typeFacts(c.st, v)
 			return v
@@ -172,7 +192,7 @@ func (e *Eng) evalCall(x *ast.CallExpr, c *ctx) Val {
 				fn = sel.Obj().(*types.Func)
 				rv := e.eval(f.X, c)
 				// walk embedded fields to the actual receiver
-				if idx := sel.Index(); len(idx) > 1 {
+				if idx := sel.Index(); len(idx) > 1 && !isAccessorPkg(fn) {
 					rv = e.walkFields(rv, sel.Recv(), idx[:len(idx)-1], c, f)
 				}
 				recv = &rv
@@ -282,6 +302,7 @@ func (e *Eng) freshResult(resT types.Type, c *ctx) Val {
 func (e *Eng) havocAll(st *State) {
 	e.havocAllHeaps(st, nil)
 	st.epoch++
+	st.tainted = true
 }
 
 // callFunc dispatches a call to a statically known function or method.
@@ -535,8 +556,16 @@ func (e *Eng) joinOuts(outs []Out, nBase int, resT types.Type) (*State, Val) {
 		return outs[0].st, retOf(outs[0])
 	}
 	guards := make([]string, len(outs))
+	var guardDefs []string
 	for i, o := range outs {
-		guards[i] = conj(o.st.pc[nBase:])
+		g := conj(o.st.pc[nBase:])
+		if len(g) > nameThreshold {
+			// name the guard so that it is not repeated in every merged term
+			s := e.newSym("g", "Bool")
+			guardDefs = append(guardDefs, "(= "+s+" "+g+")")
+			g = s
+		}
+		guards[i] = g
 	}
 	acc := outs[len(outs)-1].st.clone()
 	accRet := retOf(outs[len(outs)-1])
@@ -573,6 +602,7 @@ func (e *Eng) joinOuts(outs []Out, nBase int, resT types.Type) (*State, Val) {
 		if o.st.epoch > acc.epoch {
 			acc.epoch = o.st.epoch
 		}
+		acc.tainted = acc.tainted || o.st.tainted
 		seen := map[string]bool{}
 		for _, a := range acc.allocs {
 			seen[a] = true
@@ -584,6 +614,7 @@ func (e *Eng) joinOuts(outs []Out, nBase int, resT types.Type) (*State, Val) {
 		}
 		accRet = iteVal(g, retOf(o), accRet)
 	}
+	acc.pc = append(acc.pc, guardDefs...)
 	acc.pc = append(acc.pc, "(or "+strings.Join(guards, " ")+")")
 	for _, k := range sortedObjs(acc.vars) {
 		acc.vars[k] = e.nameTerm(acc, acc.vars[k], k.Name())
@@ -679,6 +710,7 @@ func (e *Eng) applyContract(con *Contract, fi *FuncInfo, name string, recv *Val,
 		}
 	}
 	pre := c.st.clone()
+	detRes, haveDet := e.detCallResult(con, fi, name, env, resT, c)
 	// effects
 	switch {
 	case con.Pure || con.Effect == "pure":
@@ -708,6 +740,8 @@ func (e *Eng) applyContract(con *Contract, fi *FuncInfo, name string, recv *Val,
 			fn = fi.Obj
 		}
 		res = e.ufApply(ufBaseName(fn, name), all, resT, c)
+	} else if haveDet {
+		res = detRes
 	} else {
 		res = e.freshResult(resT, c)
 	}
@@ -743,6 +777,9 @@ func shortName(n string) string {
 
 // havocPointee forgets what a pointer, slice or cell argument points to.
 func (e *Eng) havocPointee(st *State, v Val) {
+	if e.holdsRefs(v.GoT) {
+		st.tainted = true
+	}
 	switch v.K {
 	case KSlice:
 		var et types.Type = types.Typ[types.Uint8]
